@@ -45,6 +45,18 @@ from . import lattice_layer
 from . import rtl_lib
 
 _MAX_RTL_SWAPS = 10000
+
+# Verification hook (off unless TENSORFLOW_LATTICE_VERIF=1): records the steps of
+# _get_rtl_structure so that recorded executions can be checked against a specification.
+import os as _verif_os  # pylint: disable=g-import-not-at-top
+_VERIF = _verif_os.environ.get('TENSORFLOW_LATTICE_VERIF') == '1'
+_VERIF_TRACE = []
+
+
+def _verif_record(step, rtl_inputs):
+  _VERIF_TRACE.append((step, [(i.monotonicity, i.group, i.input_index)
+                              for i in rtl_inputs]))
+
 _RTLInput = collections.namedtuple('_RTLInput',
                                    ['monotonicity', 'group', 'input_index'])
 RTL_KFL_NAME = 'rtl_kronecker_factored_lattice'
@@ -566,10 +578,16 @@ class RTL(keras.layers.Layer):
 
     # Repeat the features to fill all the slots in the RTL layer.
     rs = np.random.RandomState(self.random_seed)
+    if _VERIF:
+      _verif_record('inputs', rtl_inputs)
     rs.shuffle(rtl_inputs)
+    if _VERIF:
+      _verif_record('shuffle1', rtl_inputs)
     rtl_inputs = rtl_inputs * (1 + total_usage // len(rtl_inputs))
     rtl_inputs = rtl_inputs[:total_usage]
     rs.shuffle(rtl_inputs)
+    if _VERIF:
+      _verif_record('shuffle2', rtl_inputs)
 
     # Start with random lattices, possibly with repeated groups in lattices.
     lattices = []
@@ -616,6 +634,8 @@ class RTL(keras.layers.Layer):
     # Arrange into combined lattices layers. Lattices with similar monotonicites
     # can use the same tfl.layers.Lattice layer.
     # Create a dict: monotonicity -> list of list of input indices.
+    if _VERIF:
+      _verif_record('swapped', [i for lattice in lattices for i in lattice])
     lattices_for_monotonicities = collections.defaultdict(list)
     for lattice in lattices:
       lattice.sort(key=lambda lattice_input: lattice_input.monotonicity)
